@@ -1,5 +1,6 @@
 import Cose.Cwt.Claims
 import Cose.Cbor.RawLemmas
+import Cose.Cwt.Validator
 /-!
 # C09 / C18 — the `cwt.Claims` struct survives CBOR
 
@@ -56,9 +57,9 @@ theorem toCbor_eq (c : ClaimsS) : c.toCbor = .map (members (fieldsOf c)) := by
 
 /-- what is asked of the struct: lengths and times fit their CBOR heads (always true of Go values), text members are valid UTF-8 -/
 def Ok (c : ClaimsS) : Prop :=
-  c.iss.length < two64 ∧ validUtf8 c.iss = true ∧ c.sub.length < two64 ∧ validUtf8 c.sub = true ∧
-  c.aud.length < two64 ∧ validUtf8 c.aud = true ∧ c.exp < two64 ∧ c.nbf < two64 ∧ c.iat < two64 ∧
-  (∀ b, c.cti = some b → b.length < two64)
+  c.iss.length < Cbor.two64 ∧ validUtf8 c.iss = true ∧ c.sub.length < Cbor.two64 ∧ validUtf8 c.sub = true ∧
+  c.aud.length < Cbor.two64 ∧ validUtf8 c.aud = true ∧ c.exp < Cbor.two64 ∧ c.nbf < Cbor.two64 ∧ c.iat < Cbor.two64 ∧
+  (∀ b, c.cti = some b → b.length < Cbor.two64)
 
 def norm (c : ClaimsS) : ClaimsS := { c with cti := ctiNorm c.cti }
 
@@ -126,7 +127,7 @@ theorem members_wf (es : List (Nat × Option Cbor)) (h : EsOk es) :
       obtain ⟨w, d⟩ := h.2.1 (k, some v) List.mem_cons_self v rfl
       have hk := h.1 (k, some v) List.mem_cons_self
       refine ⟨⟨?_, w, i1⟩, ?_, ?_, ?_⟩
-      · simp only [WF, two64]; simp only at hk; omega
+      · simp only [WF, Cbor.two64]; simp only at hk; omega
       · simp only [depthPairs, depth, d, i2]; simp
       · rw [List.all_cons, i3]; rfl
       · simp only [List.length_cons]; omega
@@ -176,7 +177,7 @@ def keyedEs (es : List (Nat × Option Cbor)) : List (Option ClaimKey × Bytes ×
 theorem claimKey_small (k : Nat) (h : k < 24) :
     claimKey (encode (.uint k)) = some (some (.int k), encode (.uint k)) := by
   unfold claimKey
-  rw [decodeAll_encode (.uint k) (by simp only [WF, two64]; omega) (by simp [depth])]
+  rw [decodeAll_encode (.uint k) (by simp only [WF, Cbor.two64]; omega) (by simp [depth])]
   have : k < 9223372036854775808 := by omega
   simp [this]
 
@@ -272,7 +273,7 @@ theorem fieldOf_some {α} (v : Cbor) (zero : α) (f : Cbor → Dec α) (hw : WF 
   unfold fieldOf
   simp only [decodeAll_encode v hw (by omega)]
 
-theorem str_field (s : Bytes) (h1 : s.length < two64) (h2 : validUtf8 s = true) :
+theorem str_field (s : Bytes) (h1 : s.length < Cbor.two64) (h2 : validUtf8 s = true) :
     fieldOf (Option.map encode (if s.isEmpty then none else some (Cbor.tstr s))) [] strField = .ok s := by
   cases s with
   | nil => rfl
@@ -280,7 +281,7 @@ theorem str_field (s : Bytes) (h1 : s.length < two64) (h2 : validUtf8 s = true) 
     simp only [List.isEmpty_cons, Bool.false_eq_true, if_false, Option.map_some]
     rw [fieldOf_some (Cbor.tstr (x :: r)) _ _ (by simp only [WF]; exact ⟨h1, h2⟩) rfl]; rfl
 
-theorem u64_field (n : Nat) (h : n < two64) :
+theorem u64_field (n : Nat) (h : n < Cbor.two64) :
     fieldOf (Option.map encode (if n == 0 then none else some (Cbor.uint n))) 0 u64Field = .ok n := by
   by_cases e : n = 0
   · subst e; rfl
@@ -288,7 +289,7 @@ theorem u64_field (n : Nat) (h : n < two64) :
     simp only [this, Bool.false_eq_true, if_false, Option.map_some]
     rw [fieldOf_some (Cbor.uint n) _ _ (by simp only [WF]; exact h) rfl]; rfl
 
-theorem cti_field (o : Option Bytes) (h : ∀ b, o = some b → b.length < two64) :
+theorem cti_field (o : Option Bytes) (h : ∀ b, o = some b → b.length < Cbor.two64) :
     fieldOf (Option.map encode (ctiItem o)) none bytesField = .ok (ctiNorm o) := by
   cases o with
   | none => rfl
@@ -379,6 +380,17 @@ theorem claims_struct_roundtrip (c : ClaimsS) (h : Ok c) : claimsDecode (encode 
   obtain ⟨h1, u1, h2, u2, h3, u3, h4, h5, h6, h7⟩ := h
   rw [str_field _ h1 u1, str_field _ h2 u2, str_field _ h3 u3, u64_field _ h4, u64_field _ h5, u64_field _ h6, cti_field _ h7]
   rfl
+
+/-- what `Validator.Validate` reads of a decoded struct -/
+def sview (c : ClaimsS) : SClaims :=
+  { issuer := String.fromUTF8! (ByteArray.mk c.iss.toArray), audience := String.fromUTF8! (ByteArray.mk c.aud.toArray),
+    exp := c.exp, nbf := c.nbf, iat := c.iat }
+
+/-- **a claim set validates after transport as it did before**: the struct that comes out of the bytes gets the verdict
+    of the struct that went in, under every validator -/
+theorem struct_roundtrip_validates (o : VOpts) (c : ClaimsS) (h : Ok c) :
+    ∃ c', claimsDecode (encode c.toCbor) = .ok c' ∧ validate o (sview c') = validate o (sview c) :=
+  ⟨norm c, claims_struct_roundtrip c h, rfl⟩
 
 /-- the premise is satisfiable by an ordinary claim set (issuer, audience, expiry, CWT id; no subject, nbf or iat) -/
 example : Ok ⟨[0x6c, 0x64, 0x63], [], [0x61], 1444064944, 0, 0, some [1, 2]⟩ ∧
